@@ -8,7 +8,7 @@ import (
 	"verif/harness/ph"
 )
 
-var c05Pool = []string{"v", "ve", "ver", "verbose", "vex", "x", "xy", "é"}
+var c05Pool = []string{"v", "ve", "ver", "verbose", "vex", "x", "é", "ê"} // é and ê share their first byte
 
 // partitions of the index set {0..n-1} (restricted growth strings)
 func setPartitions(n int) [][][]int {
@@ -105,7 +105,7 @@ func c05Texts(names []string) []string {
 			add(string(rs[:i]))
 		}
 	}
-	for _, s := range []string{"verbosee", "vf", "b", "vez", "xyz", "e", "é1", "vz"} {
+	for _, s := range []string{"verbosee", "vf", "b", "vez", "xyz", "e", "é1", "vz", "\xc3"} {
 		add(s)
 	}
 	sort.Strings(out)
@@ -146,7 +146,7 @@ func init() {
 	register(&Check{
 		ID:        "C05",
 		QuickSecs: 120, ThoroSecs: 900,
-		Rule: "input-space exploration over definitions: all subsets of size 2-4 of the name pool {v, ve, ver, verbose, vex, x, xy, é} x all partitions of the subset into options (names of one block are aliases) x option kind {bool, string} x 3 modes x require-order on/off, " +
+		Rule: "input-space exploration over definitions: all subsets of size 2-4 of the name pool {v, ve, ver, verbose, vex, x, é, ê} x all partitions of the subset into options (names of one block are aliases) x option kind {bool, string} x 3 modes x require-order on/off, " +
 			"each queried with every prefix of every name plus non-matching texts, in long and short spelling, at the root and inside a command that inherits the options and adds one of its own, alone and after a token that sets another option; " +
 			"effect, CalledAs, ambiguity error text (sorted candidate list) and unknown-option error compared with the reference matcher; on ambiguity no option value may change; distinct_nontrivial = distinct in-domain cases",
 		Assume: []string{"names outside the pool are not covered"},
